@@ -26,7 +26,7 @@ def check_heat(case, s, dt, model, kind):
     area = case["area"]
     tp = case["perm"]["T"]
     both = True
-    prog = procs.materialise_program(case.get("program"), case["T"], dt * n) if kind.endswith("noniso") else None
+    prog = procs.program_for(case, dt) if kind.endswith("noniso") else None
     for k in range(n):
         t = float(model.feed_temperature[k])
         j1, j2 = float(model.partial_fluxes[k][0]), float(model.partial_fluxes[k][1])
